@@ -475,6 +475,22 @@ def check_c10(tier, seed, replay):
         extra_trusted=['Python re as regex oracle on the pattern subset used'])
 
 
+@pure('C18')
+def check_c18(tier, seed, replay):
+    import printgen
+    return check_pure(
+        'C18', tier, seed, replay, 'print', 'print', printgen.gen,
+        rule='a fixed family of C++ types covering every dispatch shape (int, bool, std::string, const char* incl. null, raw/unique/shared '
+             'pointers incl. null, nullptr_t, pair, tuple, vector/list/array/C array/map, nested vectors, opaque structs of 1..40 bytes, a type '
+             'with printer<T>, a type with both operator<< and printer<T>, user-printed elements inside collections) with seeded run-time '
+             'values x all 288 prior stream states (width {0,3,12} x base {dec,hex,oct,none} x adjust {left,right,internal,none} x fill '
+             '{space,*,0} x extra flags); compared: the output string and width/base/adjust/fill/flags afterwards. distinct = distinct lines',
+        assumptions=['addresses printed for non-null pointers are canonicalised to <addr>',
+                     'the standard stream\'s padding of a string insertion (operator<<(ostream&, const char*)) is modelled by `pad`'],
+        nontrivial=lambda l, b: not l.startswith('0 dec left 32 0 |'),
+        extra_trusted=['libstdc++ formatted output of int / string under dec, left, fill space, width 0; `pad` for string literals'])
+
+
 def main():
     ap = argparse.ArgumentParser()
     ap.add_argument('prop')
